@@ -328,11 +328,35 @@ def text_layers_directly_on_the_stream(W, rec):
     LS = W["LimitedStream"]
     body = b"ab\ncd\nefg\nhi"
     tail = b"GET /next HTTP/1.1\r\n\r\n"
-    for mk_under in ("bytesio", "buffered"):
+    class ReadOnlyInput:
+        """PEP 3333 input: read / readline only, no io base class, no readable()."""
+
+        def __init__(self, raw):
+            self.raw = raw
+
+        def read(self, n=-1):
+            return self.raw.read(n)
+
+        def readline(self, n=-1):
+            return self.raw.readline(n)
+
+    class RawReadinto(io.RawIOBase):
+        """An io.RawIOBase subclass that only implements readinto (readable() keeps its inherited answer)."""
+
+        def __init__(self, raw):
+            self.raw = raw
+
+        def readinto(self, b):
+            d = self.raw.read(len(b))
+            b[:len(d)] = d
+            return len(d)
+
+    for mk_under in ("bytesio", "buffered", "read-only-object", "rawiobase-readinto-only"):
         for L in (0, 1, 3, 6, len(body)):
             for use in ("read_n", "readline", "iterate", "readlines", "buffered_peek", "buffered_read1"):
                 raw = io.BytesIO(body + tail)
-                under = raw if mk_under == "bytesio" else io.BufferedReader(raw, buffer_size=4)
+                under = {"bytesio": lambda: raw, "buffered": lambda: io.BufferedReader(raw, buffer_size=4), "read-only-object": lambda: ReadOnlyInput(raw),
+                         "rawiobase-readinto-only": lambda: RawReadinto(raw)}[mk_under]()
                 ls = LS(under, L)
                 case = {"part": "text-direct", "underlying": mk_under, "limit": L, "use": use}
                 rec.case()
@@ -355,7 +379,7 @@ def text_layers_directly_on_the_stream(W, rec):
                             got = "".join(t.readlines()).encode("latin-1")
                 except Exception as e:  # noqa: BLE001
                     got = ("EXC:" + type(e).__name__).encode()
-                consumed = raw.tell() if mk_under == "bytesio" else None
+                consumed = raw.tell() if mk_under != "buffered" else None
                 if got != body[:L]:
                     rec.violation("C09/layered-read-differs" if not got.startswith(body[:L]) or len(got) <= L else "C09/over-read-underlying", f"a {use} layer directly on LimitedStream(limit {L}) over {mk_under} returned {got!r}, the request body is {body[:L]!r}", case, monitor="byte-accounting")
                     break
@@ -369,7 +393,9 @@ def run_input_stream(W, rec):
 
     get_input_stream = W["get_input_stream"]
     body = b"hello world"  # 11 bytes on the wire
-    CLS = [None, "0", "5", "11", "20", "-1", "abc", "٥", " 7 ", "+5", "1_0", "99999999999", ""]
+    CLS = [None, "0", "5", "11", "20", "-1", "abc", "٥", " 7 ", "+5", "1_0", "99999999999", "",
+           # a length is a number however many digits spell it
+           "00000000000000000005", "0000000000000000000000000000011", "100000000000000000000"]
     for cl, chunked, terminated, maxlen, safe in itertools.product(CLS, (False, True), (False, True), (None, 0, 3, 11, 50), (True, False)):
         rec.case()
         rec.observe("input_stream_cells")
